@@ -140,6 +140,7 @@ def state_writes(fi: FuncInfo) -> List[Tuple[str, ast.AST]]:
         params_all.discard(fn.args.args[0].arg)
     alias: Dict[str, str] = {}
     galias: Dict[str, str] = {}
+    clsalias: Set[str] = set()
     for nm, ds in fdefs.items():
         if len(ds) != 1 or nm in params_all or ds[0] is None:
             continue
@@ -151,6 +152,9 @@ def state_writes(fi: FuncInfo) -> List[Tuple[str, ast.AST]]:
             alias[nm] = ast.unparse(d)
         elif isinstance(d, ast.Name) and d.id in modlevel and d.id not in loc and d.id not in imported:
             galias[nm] = d.id               # `options = _DEFAULTS`: the local IS the module-level object
+        elif (isinstance(d, ast.Call) and ast.unparse(d.func) == "type" and len(d.args) == 1 and isinstance(d.args[0], ast.Name) and d.args[0].id in selfish) \
+                or (isinstance(d, ast.Attribute) and d.attr == "__class__" and isinstance(d.value, ast.Name) and d.value.id in selfish):
+            clsalias.add(nm)                # `cls = type(self)`: the local IS the class object
 
     def classify_target(t: ast.AST, node: ast.AST, mut: str = ""):
         root = _root_name(t)
@@ -158,6 +162,10 @@ def state_writes(fi: FuncInfo) -> List[Tuple[str, ast.AST]]:
             out.append(("clsattr:%s%s" % (ast.unparse(t).replace(" ", ""), mut), node))     # type(self).X = ...: class-level state
             return
         if not isinstance(root, ast.Name):
+            return
+        if root.id in clsalias and isinstance(t, (ast.Attribute, ast.Subscript)):
+            txt = ast.unparse(t).replace(" ", "")
+            out.append(("clsattr:type(self)%s%s" % (txt[len(root.id):], mut), node))     # cls = type(self); cls.X = ...: class-level state
             return
         if root.id in galias and (isinstance(t, ast.Subscript) or mut):
             out.append(("global-mut:%s%s (via local alias %s)" % (galias[root.id], mut, root.id), node))
